@@ -1,6 +1,6 @@
 """Parameter store / restore (C17): signature guards, fan-out, enable gate, NVM result
 discipline (RF8), load on init and reset by type - by folding over input classes."""
-from canalyze.ir import walk, strip, const_eval, show, callee_name
+from canalyze.ir import is_pointer, walk, strip, const_eval, show, callee_name
 from canalyze.peval import PEval
 from tables import spec
 
@@ -13,7 +13,7 @@ def _run(m, fname, inputs, filt=None):
     pe.store_filter = filt if filt is not None else (lambda k, f: f is not None and f[1] == 'Error')
     base = {}
     for prm in m.funcs[fname].params:
-        if (prm[2] or '').rstrip().endswith('*'):
+        if is_pointer(prm[2]):
             base[prm[0]] = 1
     base.update(inputs)
     return pe.run(base)
